@@ -17,6 +17,7 @@
 -/
 import ClairModel.Proofs.Dpkg
 import ClairModel.Proofs.Apk
+import ClairModel.Proofs.OsRelease
 
 namespace ClairModel.Props.C02
 open ClairModel ClairModel.Bytes ClairModel.Rfc822 ClairModel.Dpkg
@@ -236,5 +237,85 @@ example : Apk.scan (joinLines [asc "P:a", asc "V:1", asc "o:s", [], asc "P:b", a
   decide
 
 end apk
+
+/-! ## os-release -/
+
+section osrelease
+open ClairModel.OsRelease
+
+/-- A value written in double quotes (with `` ` \ " $ `` escaped, as
+    os-release(5) prescribes) is read back — for every byte string that does
+    not end with a double quote. -/
+theorem osrelease_dquote_roundtrip_partial (v : Bytes) (h : NotEndsWith 34 v) : unquote (dquote v) = v :=
+  unquote_dquote v h
+
+/-- A value written in single quotes (`'` as `'\''`) is read back — for every
+    byte string that neither starts nor ends with a single quote. -/
+theorem osrelease_squote_roundtrip_partial (v : Bytes) (hs : NotStartsWith 39 v) (he : NotEndsWith 39 v) :
+    unquote (squote v) = v :=
+  unquote_squote v hs he
+
+/-- An unquoted value is taken verbatim. -/
+theorem osrelease_bare_roundtrip (v : Bytes) (h1 : NotStartsWith 39 v) (h2 : NotStartsWith 34 v) : unquote v = v :=
+  unquote_bare v h1 h2
+
+/-- The escaping itself is always inverted; only the trimming of the
+    enclosing quotes loses information. -/
+theorem osrelease_unescape_inverts_escape (v : Bytes) :
+    unescapeDQ (escapeDQ v) = v ∧ replaceSQ (escapeSQ v) = v :=
+  ⟨unescapeDQ_escapeDQ v, replaceSQ_escapeSQ v⟩
+
+/-- Full strength is false: `say "hi"` written as `"say \"hi\""` is read as
+    `say "hi\` (every trailing quote is trimmed before unescaping) — finding
+    `osrelease-quote-at-end`. -/
+theorem osrelease_quote_at_end_counterexample :
+    unquote (dquote (asc "say \"hi\"")) = asc "say \"hi\\" ∧
+    unquote (squote (asc "rock 'n'")) = asc "rock 'n'\\" := by
+  decide
+
+/-- A written file (assignments, one per line, each newline-terminated) parses
+    to the map in which the last assignment of each key wins; no line is lost. -/
+theorem osrelease_parse_written_file (as : List Assign) (hw : ∀ a ∈ as, a.WF) :
+    ∃ m, parse (joinNl (as.map Assign.line)) = some m ∧ ∀ k, mapGet m k = lastValue as k := by
+  refine ⟨as.foldl (fun m a => mapSet m a.key a.value) [], ?_, ?_⟩
+  · unfold parse
+    rw [scanLines_joinNl _ (by
+      intro l hl
+      obtain ⟨a, ha, rfl⟩ := List.mem_map.1 hl
+      exact ⟨(hw a ha).no_nl, (hw a ha).no_cr⟩)]
+    exact parseLines_assigns as hw []
+  · intro k
+    rw [mapGet_foldl]
+    rfl
+
+/-- The distribution `toDist` builds states what the file states: every field
+    is the last assignment of its key (defaults `Linux`/`linux`;
+    `REDHAT_BUGZILLA_PRODUCT` overrides `PRETTY_NAME`, the documented hack). -/
+theorem osrelease_dist_of_written_file (as : List Assign) (hw : ∀ a ∈ as, a.WF) :
+    ∃ m, parse (joinNl (as.map Assign.line)) = some m ∧
+      (toDist m).name = (lastValue as kNAME).getD dLinux ∧
+      (toDist m).did = (lastValue as kID).getD dlinux ∧
+      (toDist m).version = (lastValue as kVERSION).getD [] ∧
+      (toDist m).versionId = (lastValue as kVERSION_ID).getD [] ∧
+      (toDist m).codeName = (lastValue as kVERSION_CODENAME).getD [] ∧
+      (toDist m).prettyName = (match lastValue as kREDHAT with
+        | some v => v
+        | none => (lastValue as kPRETTY_NAME).getD []) := by
+  obtain ⟨m, hp, hg⟩ := osrelease_parse_written_file as hw
+  refine ⟨m, hp, ?_⟩
+  simp only [toDist, hg, true_and]
+  cases lastValue as kREDHAT <;> rfl
+
+/-- Comment lines and blank lines are ignored. -/
+theorem osrelease_noise_ignored (m : List (Bytes × Bytes)) (l : Bytes) (h : Noise l) : parseLine m l = some m :=
+  parseLine_noise m l h
+
+/-- Sanity: Debian's file. -/
+example : (parse (joinNl [asc "PRETTY_NAME=\"Debian GNU/Linux 11 (bullseye)\"", asc "NAME=\"Debian GNU/Linux\"",
+    asc "VERSION_ID=\"11\"", asc "# c", asc "ID=debian"])).map toDist =
+    some ⟨asc "Debian GNU/Linux", asc "debian", [], asc "11", [], asc "Debian GNU/Linux 11 (bullseye)"⟩ := by
+  decide
+
+end osrelease
 
 end ClairModel.Props.C02
